@@ -9,7 +9,7 @@ trap 'git -C /repo checkout -- . ; ./check build >/dev/null' EXIT
 for id in "$@"; do
   echo "=== $id on $(basename $(dirname $patch))"
   start=$(date +%s)
-  ./check "$id" --tier "${TIER:-quick}" $EXTRA > /tmp/try_mutant.$id.log 2>&1
+  ./check "$id" --tier "${TIER:-quick}" --no-evidence $EXTRA > /tmp/try_mutant.$id.log 2>&1
   rc=$?
   end=$(date +%s)
   grep -E "^VIOLATION|^KNOWN-FINDING|^UNREPRODUCIBLE|BUILD FAILED|^final:|^minimised|runs \(" /tmp/try_mutant.$id.log | cut -c1-400
